@@ -127,7 +127,7 @@ def kinetic_cases(draw, *, max_datasets=3, allow_full=True, allow_irf=True, iden
     for i in range(n_ds):
         lab = f"dataset_{i+1}"
         dd = {"megacomplex": list(mcs), **copy.deepcopy(extra_dataset)}
-        if n_ds > 1 and i > 0 and draw(st.booleans()):
+        if n_ds > 1 and i > 0 and (identifiable or draw(st.booleans())):
             params.setdefault("scale", []).append([f"d{i+1}", draw(st.sampled_from([0.5, 2.0, 3.0])), {"vary": False}])
             dd["scale"] = f"scale.d{i+1}"
         elif n_ds == 1 and sim == "clp" and draw(st.integers(0, 2)) == 0:
@@ -143,10 +143,21 @@ def kinetic_cases(draw, *, max_datasets=3, allow_full=True, allow_irf=True, iden
         spec["dataset"][lab] = dd
         same_time = i > 0 and draw(st.booleans())
         datasets[lab] = {"time": list(datasets["dataset_1"]["time"]) if same_time else _time_axis(draw, identifiable),
-                         "spectral": _spectral_axis(draw) if (i == 0 or draw(st.booleans())) else None,
+                         "spectral": _spectral_axis(draw) if (i == 0 or (not identifiable and draw(st.booleans()))) else None,
                          "clp_seed": draw(st.integers(0, 10**6)), "noise": 0.0, "noise_seed": draw(st.integers(0, 10**6))}
+        shares_axis = datasets[lab]["spectral"] is None
         if datasets[lab]["spectral"] is None:
             datasets[lab]["spectral"] = list(datasets["dataset_1"]["spectral"])
+        if i > 0 and shares_axis and "scale" in dd and draw(st.booleans()):
+            # a FREE dataset scale: identifiable because the clps are linked with dataset_1 on a shared spectral axis
+            for item in params["scale"]:
+                if item[0] == f"d{i+1}":
+                    item[2] = {}
+        if n_ds == 1 and draw(st.integers(0, 5)) == 0:
+            # square data (n_time == n_spectral) stored as (spectral, time): layout decisions must go by dimension name
+            t_ = datasets[lab]["time"]
+            datasets[lab]["spectral"] = [datasets[lab]["spectral"][0] + 2.5 * k for k in range(len(t_))]
+            datasets[lab]["stored_transposed"] = True
     if sim == "full":
         shapes = {}
         params["shapes"] = []
@@ -242,6 +253,8 @@ def simulate_data(case, model, parameters):
             clp = make_clp(labels, d["spectral"], seed0, float(parameters.get(sc).value) if sc else 1.0)
             clps[lab] = clp
             ds = simulate(model, lab, parameters, coords, clp=clp, noise=d["noise"] > 0, noise_std_dev=d["noise"] or 1.0, noise_seed=d["noise_seed"])
+        if d.get("stored_transposed"):
+            ds = ds.transpose("spectral", "time")
         data[lab] = ds
     return data, clps
 
